@@ -102,3 +102,7 @@ Definition check_init (W : wsys) (tlc : list gstate) : string :=
   if Nat.eqb (List.length (gdedup mine)) (List.length (gdedup tlc)) && forallb (fun s => gmem s tlc) mine && forallb (fun s => gmem s mine) tlc
   then "" else "#@#TLCDIFF initial states differ: model " ++ nat_str (List.length mine) ++ " tlc " ++ nat_str (List.length tlc) ++
                match mine with s :: _ => " #@#model_init=" ++ show_vstore s | [] => "" end ++ " #@#END".
+(* the first state of a TLC simulation trace must be one of the model's initial states *)
+Definition check_init_mem (W : wsys) (id : string) (st : gstate) : string :=
+  if gmem st (init_all W (w_init W) []) then ""
+  else "#@#TLCDIFF trace " ++ id ++ " starts outside the model's initial states #@#tlc_only=" ++ show_vstore st ++ " #@#END".
